@@ -17,6 +17,9 @@ pub struct SerCase {
     pub plan: Option<DiskPlan>,
     pub qseed: u64,
     pub n_queries: usize,
+    /// the value has a query history before it is serialized (the batch is run on it first)
+    #[serde(default)]
+    pub queried_first: bool,
 }
 
 pub fn gen_case(run_seed: u64, tier: Tier) -> SerCase {
@@ -41,6 +44,7 @@ pub fn gen_case(run_seed: u64, tier: Tier) -> SerCase {
         plan,
         qseed: stream(run_seed, "queries").next_u64(),
         n_queries: 60,
+        queried_first: frng.bool(),
     }
 }
 
@@ -79,6 +83,14 @@ pub fn exec(case: &SerCase) -> RunOut {
     out.nontrivial = case.spec.n() > 0;
     out.count(&format!("type.{fam}"), 1);
     out.count(&format!("config.{}", BINCODE_CONFIGS.get(case.cfg as usize).copied().unwrap_or("plain_functions")), 1);
+    if case.queried_first {
+        // "every value": also one that has already answered queries
+        let mut qrng = Rng::new(case.qseed);
+        for q in gen_queries(&case.spec, &mut qrng, case.n_queries) {
+            let _ = catch(|| x.answer(&q));
+        }
+        out.count("values_with_a_query_history", 1);
+    }
     let bytes0 = match catch(|| ser_vec(x.as_ref(), case.cfg)) {
         Ok(Ok(b)) => b,
         Ok(Err(e)) => {
